@@ -5,7 +5,7 @@
 use std::fs;
 
 fn main() {
-    println!("cargo:rustc-check-cfg=cfg(has_reply_hub, has_reply_bsei, has_reply_stsei, has_reply_reward, has_reply_disp, has_reply_reg)");
+    println!("cargo:rustc-check-cfg=cfg(has_reply_hub, has_reply_bsei, has_reply_stsei, has_reply_reward, has_reply_disp, has_reply_reg, has_migrate_hub, has_migrate_bsei, has_migrate_stsei, has_migrate_reward, has_migrate_disp, has_migrate_reg)");
     let contracts = [
         ("hub", "basset_sei_hub"),
         ("bsei", "basset_sei_token_bsei"),
@@ -22,6 +22,9 @@ fn main() {
             let code: String = src.lines().map(|l| l.split("//").next().unwrap_or("")).collect::<Vec<_>>().join("\n");
             if code.contains("pub fn reply(") || code.contains("pub fn reply (") {
                 println!("cargo:rustc-cfg=has_reply_{}", short);
+            }
+            if code.contains("pub fn migrate(") || code.contains("pub fn migrate (") {
+                println!("cargo:rustc-cfg=has_migrate_{}", short);
             }
             // the entry points the contract defines (for the alphabet check)
             let mut eps: Vec<&str> = vec![];
